@@ -3,5 +3,6 @@ pub mod c05;
 pub mod c07;
 pub mod c08;
 pub mod c10;
+pub mod c12;
 pub mod c17;
 pub mod swaps;
